@@ -33,6 +33,7 @@ MIN_REACH = {
     "long_case_sets_crossed_with_a_sub_grid": {"quick": 4, "thorough": 16},
     "positional_cases_named_by_the_function_signature": {"quick": 12, "thorough": 250},
     "case_sets_given_as_mappings_that_are_not_dicts": {"quick": 25, "thorough": 500},
+    "callers_case_dicts_compared": {"quick": 80, "thorough": 1500},
     "rejections_checked": {"quick": 20, "thorough": 150},
     "case_sets_given_as_one_shot_iterators": {"quick": 100, "thorough": 2000},
     "rejections_checked_with_positional_cases": {"quick": 5, "thorough": 40},
@@ -173,6 +174,8 @@ def run_case(ctx, case):
         opts["constants"] = constants
     combos_arg = gens.spell_combos(sub, "dict") if sub else None
 
+    import copy as _copy
+    given_cases_before = _copy.deepcopy(spelled_cases) if isinstance(spelled_cases, list) and spelled_cases and isinstance(spelled_cases[0], dict) else None
     result, err = None, None
     pool_ = None
     if case.get("long"):
@@ -206,6 +209,12 @@ def run_case(ctx, case):
     finally:
         if pool_ is not None:
             pool_.shutdown(wait=True)
+    if given_cases_before is not None:
+        # the caller's own case dicts are the caller's: the same list can be handed over again
+        ctx.count("callers_case_dicts_compared")
+        if spelled_cases != given_cases_before or [list(c) for c in spelled_cases] != [list(c) for c in given_cases_before]:
+            ctx.violation(case, "the caller's case dicts were modified by the call: %r -> %r" % (given_cases_before[:2], spelled_cases[:2]),
+                          {"api": case["entry"], "oracle": "inputs-untouched"})
     logged = [r["k"] for r in loglist]
     ctx.count("calls_logged", len(logged))
     sig0 = {"api": case["entry"], "kind": kind.split(":")[0], "split": case["split"], "flat": case["flat"],
